@@ -1,6 +1,7 @@
 /* C11: a textual description defines exactly the grammar its documented syntax denotes.
    mode 0: a catalogue grammar rendered with symbolic lexical variations is compared with its
            callback-defined twin on every token sequence up to a bound (inside the path);
+           with hist=1 another description (rejected at one of several stages, or accepted) is read first;
    mode 1: arbitrary bytes: only documented error codes, line number inside the text;
    mode 2: character constant with a symbolic character. */
 #include "ph.h"
@@ -45,13 +46,30 @@ void harness (void)
     {
       int gi = (int) sx_param ("grammar", 0), maxlen = (int) sx_param ("maxlen", 2), nt, len, next = 256, idx[8], one;
       g_select (&catalogue[gi]);
-      g_style = sx_choice ("style", 4); g_use_sem = sx_choice ("sem", 2); g_comment = sx_choice ("comment", 4); g_omit_cost = sx_choice ("omit_cost", 2);
-      g_ws = (char) sx_range ("ws", 9, 32);
-      sx_assume (g_ws == ' ' || g_ws == '\t' || g_ws == '\n');
+      int hist = (int) sx_param ("hist", 0);
+      g_style = sx_choice ("style", 4);
+      if (hist) { g_use_sem = 1; g_comment = 0; g_omit_cost = 0; g_ws = ' '; }
+      else
+        {
+          g_use_sem = sx_choice ("sem", 2); g_comment = sx_choice ("comment", 4); g_omit_cost = sx_choice ("omit_cost", 2);
+          g_ws = (char) sx_range ("ws", 9, 32);
+          sx_assume (g_ws == ' ' || g_ws == '\t' || g_ws == '\n');
+        }
       g_describe (text);
       /* the denoted grammar: implicit codes are 256, 257, ... in order of first appearance */
       if (g_style == 1) for (i = 0; i < G.nsym; i++) if (G.sym[i].kind == SK_TERM && !g_is_charterm (&G.sym[i])) G.sym[i].code = next++;
       g1 = yaep_create_grammar (); g2 = yaep_create_grammar (); sx_assume (g1 != NULL && g2 != NULL);
+      if (hist)
+        { /* the description is read after another one was read (by the same or another object) and rejected at different
+             stages or accepted: the reader keeps its state in file-scope variables */
+          static const char *const prior_text[5] = { "S : 'a' # 0 ; ; |", "TERM a; s : a # 5;", "TERM a=1 b=1; s : a;", "S : 'x' 'y' # p(1 0) | ;", "TERM a=5 b c; TERM a=7; s : a;" };
+          int prior = sx_choice ("prior", 5), same = sx_choice ("same_obj", 2), rc0; struct grammar *g0 = same ? g1 : yaep_create_grammar ();
+          sx_assume (g0 != NULL);
+          rc0 = yaep_parse_grammar (g0, 1, prior_text[prior]);
+          sx_observe ("rc0", rc0);
+          sx_assert ((rc0 == 0) == (prior == 3), "prior description has the expected outcome");
+          if (!same) yaep_free_grammar (g0);
+        }
       rc1 = yaep_parse_grammar (g1, strict, text);
       rc2 = g_define (g2, strict);
       sx_observe ("rc1", rc1); sx_observe ("rc2", rc2);
